@@ -401,6 +401,34 @@ def ifexp_to_statement(tree):
     return tree
 
 
+def fold_constant_tests(tree):
+    """`if <constant> is [not] None:` / `if <constant>:` (left behind when a helper is inlined with a literal argument) is replaced by
+    the arm that runs"""
+    def known(t):
+        if isinstance(t, ast.Constant):
+            return bool(t.value)
+        if isinstance(t, ast.Compare) and len(t.ops) == 1 and isinstance(t.left, ast.Constant) and isinstance(t.comparators[0], ast.Constant) \
+                and isinstance(t.ops[0], (ast.Is, ast.IsNot)) and (t.left.value is None or t.comparators[0].value is None):
+            same = t.left.value is None and t.comparators[0].value is None
+            return same if isinstance(t.ops[0], ast.Is) else not same
+        if isinstance(t, ast.UnaryOp) and isinstance(t.op, ast.Not):
+            k = known(t.operand)
+            return None if k is None else not k
+        return None
+    for node, fld, blk in list(_blocks(tree)):
+        i = 0
+        while i < len(blk):
+            st = blk[i]
+            if isinstance(st, ast.If):
+                k = known(st.test)
+                if k is not None:
+                    arm = st.body if k else st.orelse
+                    blk[i:i + 1] = arm if (arm or len(blk) > 1) else [ast.copy_location(ast.Pass(), st)]
+                    continue
+            i += 1
+    return tree
+
+
 def loops_to_comprehensions(tree):
     """X = [] ; for T in IT: [if C:] X.append(E)   ->   X = [E for T in IT if C]      (X not used in IT / C / E, nothing between
        the two statements mentions X);  D = {} ; for T in IT: [if C:] D[K] = V  ->  D = {K: V for T in IT if C}"""
@@ -484,6 +512,7 @@ def shape(tree, modname=None):
         tree._inlined_helpers = inline_helpers(tree, modname)
         if tree._inlined_helpers:
             # the spliced bodies bring their own returns-turned-assignments: same normal forms again
+            tree = fold_constant_tests(tree)
             tree = split_tuple_assign(tree)
             tree = coalesce_generated(tree)
             tree = ifexp_to_statement(tree)
